@@ -101,4 +101,9 @@ static inline int cmm_to_c11(int mo)
 #error "Cannot build: unrecognized architecture, see <urcu/arch.h>."
 #endif
 
+#ifdef URCU_VERIF
+#define _URCU_UATOMIC_VERIF_POINT
+#include <urcu/verif.h>
+#endif
+
 #endif /* _URCU_UATOMIC_H */
